@@ -1,10 +1,25 @@
 // Package e2e is the W-e2e world: real client.Client instances talking to the
-// real broker over simulated links - both ends real code. It carries the
-// end-to-end half of C15 (per-publisher order, callback order, exactly-once and
-// no-loss across cuts and resumptions) and registers the C15 check.
+// real broker over simulated links - both ends real code, no scripted peer
+// whose reading of MQTT could be wrong in the same way as an oracle.
+//
+// It registers the checks that have an end-to-end seed class and dispatches
+// their other seeds to the scripted-peer worlds:
+//
+//	C15  order per publisher and QoS level at the subscriber's application
+//	C08  an acknowledged QoS>=1 publish is not lost on the broker's side for a
+//	     persistent subscriber that is cut and resumed
+//	C10  the subscribing client passes on what it acknowledges, QoS 2 once
+//	C07  publishers with persistent sessions are cut and resumed in the middle
+//	     of handshakes: nothing is handed to the backend again after acceptance,
+//	     nothing acknowledged to the publisher was never handed over
+//
+// A violation is attributed with the help of the broker-side history (Backend
+// seam and the broker's view of each connection), so that each class reports
+// only what its own property states.
 package e2e
 
 import (
+	"errors"
 	"fmt"
 	"testing"
 	"time"
@@ -17,13 +32,17 @@ import (
 	"verif/sim/core"
 	"verif/sim/rt"
 	"verif/sim/worlds/brk"
+	"verif/sim/worlds/cli"
 )
 
 func init() {
-	core.Register(&core.Check{ID: "C15", Expand: expand, Run: run})
+	core.Register(&core.Check{ID: "C15", Expand: expand15, Run: run(brk.RunC15)})
+	core.Register(&core.Check{ID: "C07", Expand: classExpand("C07", brk.ExpandC07, 11, 6), Run: run(brk.RunC07)})
+	core.Register(&core.Check{ID: "C08", Expand: classExpand("C08", brk.ExpandC08, 6, 5), Run: run(brk.RunC08)})
+	core.Register(&core.Check{ID: "C10", Expand: classExpand("C10", cli.ExpandC10, 6, 5), Run: run(cli.RunC10)})
 }
 
-func expand(t *testing.T, seed uint64, tier string) []*core.Plan {
+func expand15(t *testing.T, seed uint64, tier string) []*core.Plan {
 	plans := brk.ExpandC15(t, seed, tier)
 	if seed%3 == 2 {
 		for _, p := range plans {
@@ -34,21 +53,143 @@ func expand(t *testing.T, seed uint64, tier string) []*core.Plan {
 	return plans
 }
 
-func run(t *testing.T, p *core.Plan) *core.Result {
-	if p.Knob("e2e", 0) == 1 {
-		return runE2E(t, p)
+type expandFn func(*testing.T, uint64, string) []*core.Plan
+type runFn func(*testing.T, *core.Plan) *core.Result
+
+func classExpand(prop string, inner expandFn, mod, rem uint64) expandFn {
+	return func(t *testing.T, seed uint64, tier string) []*core.Plan {
+		if seed%mod == rem {
+			return []*core.Plan{genE2E(seed, prop)}
+		}
+		return inner(t, seed, tier)
 	}
-	return brk.RunC15(t, p)
+}
+
+func run(inner runFn) runFn {
+	return func(t *testing.T, p *core.Plan) *core.Result {
+		if p.Knob("e2e", 0) == 1 {
+			return runE2E(t, p)
+		}
+		return inner(t, p)
+	}
+}
+
+// genE2E draws an end-to-end plan for the C07/C08/C10 classes.
+func genE2E(seed uint64, prop string) *core.Plan {
+	r := core.NewRand(core.Derive(seed, "plan"))
+	p := &core.Plan{Check: prop, Seed: seed}
+	np, ns := r.Range(1, 3), r.Range(1, 2)
+	p.SetKnob("e2e", 1)
+	p.SetKnob("pubs", np)
+	p.SetKnob("subs", ns)
+	p.SetKnob("window", r.Range(1, 10))
+	p.SetKnob("chunk", r.Pick(0, 0, -1, 1))
+	p.Yield = r.Pick(0, 0, 8)
+	if prop == "C07" {
+		p.SetKnob("ppersist", 1)
+	}
+	for s := 1; s <= ns; s++ {
+		it := core.Item{K: "sub", P: s, L: []int{r.Intn(3), r.Pick(1, 2, 2)}}
+		if r.Chance(1, 3) {
+			it.L = append(it.L, r.Intn(3), r.Pick(1, 2))
+		}
+		p.Items = append(p.Items, it)
+	}
+	seq := map[int]int{}
+	offline, poffline := map[int]bool{}, map[int]bool{}
+	n := r.Range(4, 40)
+	for i := 0; i < n; i++ {
+		w := []int{12, 2, 2, 0, 0, 2, 2}
+		if prop == "C07" {
+			w = []int{12, 1, 1, 3, 3, 2, 2}
+		}
+		switch r.Weighted(w) {
+		case 5, 6:
+			// a precisely placed failure: the k-th packet from now that the client
+			// (5) or the broker (6) sends on that party's connection fails, before
+			// it leaves or after it has arrived
+			side := "cfail"
+			if r.Chance(1, 2) {
+				side = "bfail"
+			}
+			it := core.Item{K: side, P: 1 + r.Intn(ns), A: r.Range(1, 4), B: r.Intn(2)}
+			if prop == "C07" && r.Chance(2, 3) {
+				it.C, it.P = 1, 1+r.Intn(np) // a publisher's connection
+			}
+			p.Items = append(p.Items, it)
+		case 0:
+			pb := 1 + r.Intn(np)
+			seq[pb]++
+			p.Items = append(p.Items, core.Item{K: "pub", P: pb, A: r.Pick(1, 2, 2, 0), B: r.Intn(2), D: pb*100000 + seq[pb]})
+		case 1:
+			if s := 1 + r.Intn(ns); !offline[s] {
+				p.Items = append(p.Items, core.Item{K: "cut", P: s})
+				offline[s] = true
+			}
+		case 2:
+			if s := 1 + r.Intn(ns); offline[s] {
+				p.Items = append(p.Items, core.Item{K: "resume", P: s})
+				offline[s] = false
+			}
+		case 3:
+			if q := 1 + r.Intn(np); !poffline[q] {
+				p.Items = append(p.Items, core.Item{K: "pcut", P: q})
+				poffline[q] = true
+			}
+		case 4:
+			if q := 1 + r.Intn(np); poffline[q] {
+				p.Items = append(p.Items, core.Item{K: "presume", P: q})
+				poffline[q] = false
+			}
+		}
+	}
+	return p
 }
 
 type dialer struct {
-	w    *brk.World
-	last *brk.RawLink
+	w        *brk.World
+	last     *brk.RawLink
+	lastConn *cliConn
 }
 
 func (d *dialer) Dial(string) (transport.Conn, error) {
 	d.last = d.w.DialIn()
-	return transport.NewNetConn(d.last.Link.A), nil
+	d.lastConn = &cliConn{Conn: transport.NewNetConn(d.last.Link.A), rl: d.last, res: d.w.Res}
+	return d.lastConn, nil
+}
+
+var errInjected = errors.New("injected connection failure")
+
+// cliConn is the real client's side of a connection: the real NetConn over the
+// simulated link, plus the ability to make the k-th Send fail - before the
+// packet leaves, or after it went out (it reaches the broker, then the link dies).
+type cliConn struct {
+	transport.Conn
+	rl     *brk.RawLink
+	res    *core.Result
+	sends  int
+	failAt int
+	post   bool
+}
+
+func (c *cliConn) Send(pkt packet.Generic, async bool) error {
+	c.sends++
+	if c.failAt != c.sends {
+		return c.Conn.Send(pkt, async)
+	}
+	if !c.post {
+		c.res.Count("fault_client_send_before", 1)
+		c.rl.Link.Cut()
+		_ = c.Conn.Close()
+		return errInjected
+	}
+	c.res.Count("fault_client_send_after", 1)
+	err := c.Conn.Send(pkt, false)
+	if err == nil {
+		c.rl.CutA2BAt = c.rl.Link.A2B.WrittenBytes()
+		err = errInjected
+	}
+	return err
 }
 
 type cbRec struct {
@@ -57,11 +198,16 @@ type cbRec struct {
 	conn     int
 }
 
-type subscriber struct {
+// party is one real client with its session: a subscriber or a publisher.
+type party struct {
+	id    string
 	slot  int
+	clean bool
 	sess  *session.MemorySession
 	cur   *client.Client
 	link  *brk.RawLink
+	conn  *cliConn
+	links map[int]bool // broker-side connection indices this party ever used
 	dead  bool
 	conns int
 	cbs   []cbRec
@@ -72,50 +218,29 @@ var filters = []string{"o/#", "o/a", "o/+"}
 var topics = []string{"o/a", "o/b"}
 
 func runE2E(t *testing.T, p *core.Plan) *core.Result {
-	res := &core.Result{Check: "C15", Seed: p.Seed}
+	prop := p.Check
+	res := &core.Result{Check: prop, Seed: p.Seed}
 	cfg := brk.DefaultConfig()
 	cfg.Chunk = p.Knob("chunk", 0)
 	cfg.Inflight = p.Knob("window", 10)
 	cfg.QueueSize = 200
 	cfg.ParPublishes = 128
 	np, ns := p.Knob("pubs", 1), p.Knob("subs", 1)
+	ppersist := p.Knob("ppersist", 0) == 1
 	var w *brk.World
 	ptxt := core.Bubble(t, p.Seed, p.Yield, func() {
 		w = brk.NewWorld(cfg, p.Seed, res)
 		d := &dialer{w: w}
-		mkcfg := func(id string, clean bool) *client.Config {
-			c := client.NewConfigWithClientID("sim://broker", id)
-			c.Dialer = d
-			c.CleanSession = clean
-			c.KeepAlive = "0s"
-			return c
-		}
-		closers := 0
 		closeClient := func(c *client.Client) {
-			closers++
-			go func() { _ = c.Close() }()
-		}
-		// publishers
-		pubs := map[int]*client.Client{}
-		pubQoS := map[int]int{}
-		type pf struct {
-			tag int
-			f   client.GenericFuture
-		}
-		var pfs []pf
-		for i := 1; i <= np; i++ {
-			c := client.New()
-			if _, err := c.Connect(mkcfg(fmt.Sprintf("p%d", i), true)); err != nil {
-				res.Violate("C15", "C15.e2e-setup", "connect", err.Error())
-				return
+			if c != nil {
+				go func() { _ = c.Close() }()
 			}
-			pubs[i] = c
 		}
-		// subscribers
-		subs := map[int]*subscriber{}
-		connect := func(s *subscriber) {
+		connect := func(s *party) {
 			c := client.New()
-			c.Session = s.sess
+			if s.sess != nil {
+				c.Session = s.sess
+			}
 			s.conns++
 			cn := s.conns
 			s.dead = false
@@ -129,14 +254,40 @@ func runE2E(t *testing.T, p *core.Plan) *core.Result {
 				s.cbs = append(s.cbs, cbRec{brk.TagOf(m.Payload), int(m.QOS), rt.Tick(), cn})
 				return nil
 			}
-			if _, err := c.Connect(mkcfg(fmt.Sprintf("s%d", s.slot), false)); err != nil {
+			cc := client.NewConfigWithClientID("sim://broker", s.id)
+			cc.Dialer = d
+			cc.CleanSession = s.clean
+			cc.KeepAlive = "0s"
+			if _, err := c.Connect(cc); err != nil {
 				s.dead = true
+				s.cur = nil
 				return
 			}
-			s.cur, s.link = c, d.last
+			s.cur, s.link, s.conn = c, d.last, d.lastConn
+			s.links[d.last.Idx] = true
 		}
+		pubs := map[int]*party{}
+		pubQoS := map[int]int{}
+		type pf struct {
+			tag int
+			f   client.GenericFuture
+		}
+		var pfs []pf
+		for i := 1; i <= np; i++ {
+			q := &party{id: fmt.Sprintf("p%d", i), slot: i, clean: !ppersist, links: map[int]bool{}}
+			if ppersist {
+				q.sess = session.NewMemorySession()
+			}
+			pubs[i] = q
+			connect(q)
+			if q.dead {
+				res.Violate(prop, prop+".e2e-setup", "connect", "publisher could not connect")
+				return
+			}
+		}
+		subs := map[int]*party{}
 		for i := 1; i <= ns; i++ {
-			s := &subscriber{slot: i, sess: session.NewMemorySession()}
+			s := &party{id: fmt.Sprintf("s%d", i), slot: i, sess: session.NewMemorySession(), links: map[int]bool{}}
 			subs[i] = s
 			connect(s)
 		}
@@ -151,8 +302,12 @@ func runE2E(t *testing.T, p *core.Plan) *core.Result {
 				l = append(l, packet.Subscription{Topic: filters[it.L[i]%3], QOS: packet.QOS(it.L[i+1] % 3)})
 			}
 			s.subs = append(s.subs, l...)
+			if s.cur == nil {
+				res.Violate(prop, prop+".e2e-setup", "subscribe", "subscriber could not connect")
+				return
+			}
 			if _, err := s.cur.SubscribeMultiple(l); err != nil {
-				res.Violate("C15", "C15.e2e-setup", "subscribe", err.Error())
+				res.Violate(prop, prop+".e2e-setup", "subscribe", err.Error())
 			}
 		}
 		w.Settle()
@@ -181,12 +336,14 @@ func runE2E(t *testing.T, p *core.Plan) *core.Result {
 				switch it.K {
 				case "pub":
 					pubQoS[it.D] = it.A
-					f, err := pubs[it.P].Publish(topics[it.B%2], brk.MsgPayload(it.D, 0), packet.QOS(it.A), false)
-					if err == nil {
-						pfs = append(pfs, pf{it.D, f})
+					if q := pubs[it.P]; q.cur != nil {
+						f, err := q.cur.Publish(topics[it.B%2], brk.MsgPayload(it.D, 0), packet.QOS(it.A), false)
+						if err == nil {
+							pfs = append(pfs, pf{it.D, f})
+						}
 					}
 				case "cut":
-					if s := subs[it.P]; !s.dead {
+					if s := subs[it.P]; !s.dead && s.link != nil {
 						s.link.Link.Cut()
 						res.Count("subscriber_cuts", 1)
 					}
@@ -194,6 +351,30 @@ func runE2E(t *testing.T, p *core.Plan) *core.Result {
 					if s := subs[it.P]; s.dead {
 						closeClient(s.cur)
 						connect(s)
+					}
+				case "cfail", "bfail":
+					pt := subs[it.P]
+					if it.C == 1 {
+						pt = pubs[it.P]
+					}
+					if pt == nil || pt.dead || pt.conn == nil {
+						break
+					}
+					if it.K == "cfail" {
+						pt.conn.failAt, pt.conn.post = pt.conn.sends+it.A, it.B == 1
+					} else {
+						pt.link.FailBrokerSend(it.A, it.B == 1)
+					}
+					res.Count("placed_faults_armed", 1)
+				case "pcut":
+					if q := pubs[it.P]; !q.dead && q.link != nil {
+						q.link.Link.Cut()
+						res.Count("publisher_cuts", 1)
+					}
+				case "presume":
+					if q := pubs[it.P]; q.dead {
+						closeClient(q.cur)
+						connect(q)
 					}
 				}
 			case "net":
@@ -209,6 +390,12 @@ func runE2E(t *testing.T, p *core.Plan) *core.Result {
 		w.Settle()
 		// healthy end: everybody resumes, everything drains
 		for round := 0; round < 3; round++ {
+			for i := 1; i <= np; i++ {
+				if q := pubs[i]; q.dead && ppersist {
+					closeClient(q.cur)
+					connect(q)
+				}
+			}
 			for i := 1; i <= ns; i++ {
 				if s := subs[i]; s.dead {
 					closeClient(s.cur)
@@ -217,60 +404,30 @@ func runE2E(t *testing.T, p *core.Plan) *core.Result {
 			}
 			w.Settle()
 		}
-		judge(w, subs, pubQoS, res)
-		completed := 0
+		completed := map[int]bool{}
 		for _, x := range pfs {
 			if x.f.Wait(time.Nanosecond) == nil {
-				completed++
+				completed[x.tag] = true
 			}
 		}
-		res.Count("publish_futures_completed", int64(completed))
-		// no loss end to end: an acknowledged QoS>=1 publish reaches every
-		// persistent subscriber whose filters all grant QoS>=1
-		for _, x := range pfs {
-			if pubQoS[x.tag] == 0 || x.f.Wait(time.Nanosecond) != nil {
-				continue
-			}
-			topic := topics[tagTopic(p, x.tag)%2]
-			for _, s := range subs {
-				minq, match := 3, false
-				for _, sb := range s.subs {
-					if matches(sb.Topic, topic) {
-						match = true
-						if int(sb.QOS) < minq {
-							minq = int(sb.QOS)
-						}
-					}
-				}
-				if !match || minq == 0 || s.dead {
-					continue
-				}
-				n := 0
-				for _, cb := range s.cbs {
-					if cb.tag == x.tag {
-						n++
-					}
-				}
-				if n == 0 {
-					res.Violate("C15", "C15.e2e-no-loss", "lost", fmt.Sprintf("publish #%d (QoS %d) was acknowledged to the real publisher client but never reached the callback of subscriber s%d, which holds a persistent QoS>=1 subscription and was resumed", x.tag, pubQoS[x.tag], s.slot))
-				}
-			}
-		}
-		for _, c := range pubs {
-			closeClient(c)
+		res.Count("publish_futures_completed", int64(len(completed)))
+		j := &judgeCtx{w: w, p: p, prop: prop, res: res, subs: subs, pubs: pubs, pubQoS: pubQoS, completed: completed}
+		j.judge()
+		for _, q := range pubs {
+			closeClient(q.cur)
 		}
 		for _, s := range subs {
 			closeClient(s.cur)
 		}
 		w.Settle()
 		if leaks := w.Teardown(); len(leaks) > 0 {
-			res.Violate("C15", "C15.leak", leaks[0], fmt.Sprintf("%d goroutines alive after teardown: %v", len(leaks), leaks))
+			res.Violate(prop, prop+".leak", leaks[0], fmt.Sprintf("%d goroutines alive after teardown: %v", len(leaks), leaks))
 		}
 		res.Yields = rt.Yields()
 		res.SimNanos = int64(core.SimNow())
 	})
 	if ptxt != "" {
-		res.Violate("C15", "C15.panic", "bubble-e2e", ptxt)
+		res.Violate(prop, prop+".panic", "bubble-e2e", ptxt)
 	}
 	if w != nil {
 		res.Hash, res.Events, res.Steps = w.Log.Hash(), w.Log.N, w.Steps
@@ -300,9 +457,66 @@ func matches(filter, topic string) bool {
 	return filter == topic
 }
 
-func judge(w *brk.World, subs map[int]*subscriber, pubQoS map[int]int, res *core.Result) {
+type judgeCtx struct {
+	w         *brk.World
+	p         *core.Plan
+	prop      string
+	res       *core.Result
+	subs      map[int]*party
+	pubs      map[int]*party
+	pubQoS    map[int]int
+	completed map[int]bool
+}
+
+// brokerView summarises what the broker did with message `tag` towards one
+// subscriber, from the broker's side of that subscriber's connections.
+type brokerView struct {
+	newSends  int  // PUBLISH packets not flagged DUP that entered Send
+	handshake bool // the broker received the PUBACK / PUBCOMP that ends the delivery
+}
+
+func (j *judgeCtx) view(s *party, tag int) brokerView {
+	var v brokerView
+	idTag := map[packet.ID]int{} // packet ids are a property of the session, they survive reconnects
+	for _, e := range j.w.Hist {
+		if !s.links[e.C] {
+			continue
+		}
+		switch e.K {
+		case brk.EvConnSend:
+			if q, ok := e.P.(*packet.Publish); ok && q.Message.QOS > 0 {
+				t := brk.TagOf(q.Message.Payload)
+				idTag[q.ID] = t
+				if t == tag && !q.Dup {
+					v.newSends++
+				}
+			}
+		case brk.EvConnRecv:
+			switch q := e.P.(type) {
+			case *packet.Puback:
+				if t, ok := idTag[q.ID]; ok {
+					if t == tag {
+						v.handshake = true
+					}
+					delete(idTag, q.ID)
+				}
+			case *packet.Pubcomp:
+				if t, ok := idTag[q.ID]; ok {
+					if t == tag {
+						v.handshake = true
+					}
+					delete(idTag, q.ID)
+				}
+			}
+		}
+	}
+	return v
+}
+
+func (j *judgeCtx) judge() {
+	res, prop := j.res, j.prop
 	n := 0
-	for _, s := range subs {
+	for _, s := range j.subs {
 		last := map[string]int{}
 		seen := map[int]int{}
 		for _, cb := range s.cbs {
@@ -311,20 +525,112 @@ func judge(w *brk.World, subs map[int]*subscriber, pubQoS map[int]int, res *core
 			}
 			seen[cb.tag]++
 			if seen[cb.tag] > 1 {
-				if pubQoS[cb.tag] == 2 && cb.qos == 2 {
-					res.Violate("C15", "C15.e2e-exactly-once", "twice", fmt.Sprintf("subscriber s%d: QoS 2 message #%d was passed to the application %d times", s.slot, cb.tag, seen[cb.tag]))
-				}
 				continue
 			}
-			key := fmt.Sprintf("p%d/pq%d/dq%d", cb.tag/100000, pubQoS[cb.tag], cb.qos)
-			if prev, ok := last[key]; ok && cb.tag%100000 <= prev%100000 {
-				res.Violate("C15", "C15.e2e-order", fmt.Sprintf("pq%d-dq%d", pubQoS[cb.tag], cb.qos), fmt.Sprintf("subscriber s%d's application saw message %d of publisher %d (published QoS %d, delivered QoS %d) after message %d", s.slot, cb.tag%100000, cb.tag/100000, pubQoS[cb.tag], cb.qos, prev%100000))
+			key := fmt.Sprintf("p%d/pq%d/dq%d", cb.tag/100000, j.pubQoS[cb.tag], cb.qos)
+			if prev, ok := last[key]; ok && cb.tag%100000 <= prev%100000 && prop == "C15" {
+				res.Violate("C15", "C15.e2e-order", fmt.Sprintf("pq%d-dq%d", j.pubQoS[cb.tag], cb.qos), fmt.Sprintf("subscriber s%d's application saw message %d of publisher %d (published QoS %d, delivered QoS %d) after message %d", s.slot, cb.tag%100000, cb.tag/100000, j.pubQoS[cb.tag], cb.qos, prev%100000))
 			}
 			last[key] = cb.tag
 			n++
+		}
+		// QoS 2 end to end: once at the application
+		for tag, k := range seen {
+			if k < 2 || j.pubQoS[tag] != 2 {
+				continue
+			}
+			q2 := 0
+			for _, cb := range s.cbs {
+				if cb.tag == tag && cb.qos == 2 {
+					q2++
+				}
+			}
+			if q2 < 2 {
+				continue
+			}
+			v := j.view(s, tag)
+			switch {
+			case v.newSends > 1 && prop == "C08":
+				res.Violate("C08", "C08.e2e-qos2-new-once", "twice", fmt.Sprintf("the broker sent QoS 2 message #%d to subscriber s%d %d times as a new (non-DUP) PUBLISH; its application saw it %d times", tag, s.slot, v.newSends, q2))
+			case v.newSends <= 1 && prop == "C10":
+				res.Violate("C10", "C10.e2e-exactly-once", "twice", fmt.Sprintf("subscriber s%d's client passed QoS 2 message #%d to the application %d times although the broker sent it as a new PUBLISH %d time(s)", s.slot, tag, q2, v.newSends))
+			}
 		}
 	}
 	res.Count("e2e_callbacks_ordered", int64(n))
 	res.Nontrivial = n >= 2
 	res.State = fmt.Sprintf("e2e/%d", n)
+
+	// acceptance at the Backend seam, per message
+	accepted := map[int]int{}
+	entered := map[int]int{}
+	afterAcc := map[int]int{}
+	for _, e := range j.w.Hist {
+		if e.M == nil || e.Call != "Publish" {
+			continue
+		}
+		tag := brk.TagOf(e.M.Payload)
+		switch e.K {
+		case brk.EvAckRel:
+			accepted[tag]++
+		case brk.EvBkEnter:
+			entered[tag]++
+			if accepted[tag] > 0 {
+				afterAcc[tag]++
+			}
+		}
+	}
+	if prop == "C07" {
+		for tag, q := range j.pubQoS {
+			if q == 2 && afterAcc[tag] > 0 {
+				res.Violate("C07", "C07.e2e-exactly-once", "forwarded-twice", fmt.Sprintf("QoS 2 message #%d of a real publisher client that was cut and resumed was handed to the backend again after the backend had accepted it (%d hand-overs)", tag, entered[tag]))
+			}
+			if q > 0 && j.completed[tag] && accepted[tag] == 0 {
+				res.Violate("C07", "C07.e2e-at-least-once", "acked-not-forwarded", fmt.Sprintf("the publisher's future for QoS %d message #%d completed but the backend never accepted the message", q, tag))
+			}
+		}
+		res.Count("e2e_publishes_accepted", int64(len(accepted)))
+	}
+
+	// no loss end to end: an accepted QoS>=1 publish reaches every persistent
+	// subscriber whose matching filters all grant QoS>=1 and that was resumed
+	for tag, q := range j.pubQoS {
+		if q == 0 || accepted[tag] == 0 {
+			continue
+		}
+		if !j.completed[tag] {
+			continue // the publisher was never told: nothing was promised
+		}
+		topic := topics[tagTopic(j.p, tag)%2]
+		for _, s := range j.subs {
+			minq, match := 3, false
+			for _, sb := range s.subs {
+				if matches(sb.Topic, topic) {
+					match = true
+					if int(sb.QOS) < minq {
+						minq = int(sb.QOS)
+					}
+				}
+			}
+			if !match || minq == 0 || s.dead {
+				continue
+			}
+			cnt := 0
+			for _, cb := range s.cbs {
+				if cb.tag == tag {
+					cnt++
+				}
+			}
+			if cnt > 0 {
+				continue
+			}
+			v := j.view(s, tag)
+			switch {
+			case !v.handshake && prop == "C08":
+				res.Violate("C08", "C08.e2e-no-loss", "lost", fmt.Sprintf("message #%d (QoS %d) was accepted by the backend and acknowledged to its publisher, subscriber s%d holds a persistent QoS>=1 subscription and was resumed, but the broker never completed a delivery of it to s%d", tag, q, s.slot, s.slot))
+			case v.handshake && prop == "C10":
+				res.Violate("C10", "C10.e2e-acked-not-delivered", "lost", fmt.Sprintf("subscriber s%d's client acknowledged message #%d to the broker but never passed it to the application", s.slot, tag))
+			}
+		}
+	}
 }
